@@ -168,6 +168,13 @@ func runC09(r *ev.Run) {
 	// interpositions by pieces, single and double pawn pushes are the only possible replies
 	r.Set("check_evasion_family", c09EvasionFamily(r, handle))
 
+	// stalemate cage family: a king with no move of its own, one pawn beside a pawn that has just double-pushed,
+	// one enemy slider anywhere, the enemy king anywhere: the pawn's moves (push, capture, en passant) decide
+	r.Set("stalemate_cage_family", c09StaleCageFamily(r, handle))
+	// corner interposition family: a cornered king checked along the edge file, own men on the neighbouring
+	// squares (possibly pinned along the long diagonal), one more own piece anywhere: captures and interpositions
+	r.Set("corner_interposition_family", c09CornerFamily(r, handle))
+
 	// U2: dense positions (pins, double checks, blocks by double push) by play
 	roots := universe.AllRoots()
 	depth := ev.Pick(r, 2, 3)
@@ -201,7 +208,6 @@ func runC09(r *ev.Run) {
 	r.Set("distinct_outcomes", map[string]int64{"in_check": inCheck.Load(), "checkmates": mates.Load(), "stalemates": stalemates.Load(), "positions_with_ep_target": epPositions.Load()})
 	r.Set("rule", "every valid position of the listed material classes with engine-normalised en-passant state (target kept only if a legal capture exists), constrained 5-man classes (thorough), and every node of the trees below the root corpus; IsCheckmate is called only in check, IsStalemate only out of check; oracle: answer == (reference has no legal move); non-trivial = positions in check + stalemates")
 }
-
 
 // c09EvasionFamily enumerates, for each cage, the checker on every square of the open line, an own pawn on
 // every square, the enemy king on every square and optionally one more own piece on every square; both colours.
@@ -299,6 +305,188 @@ func c09EvasionFamily(r *ev.Run, handle func(b *board.Board, p *refchess.Pos)) i
 					p.Sq[backer] = 0
 				}
 			}
+		}
+	})
+	return n.Load() * 2
+}
+
+// c09StaleCageFamily: Black king h8 with own pawn h7, white pawn h6 (covers g7) and white knight e7 (covers g8):
+// the king cannot move. A black pawn on its 4th rank... (from Black's view rank 4 = index 3) stands beside a white
+// pawn that has just double-pushed (en-passant target behind it); optionally a blocker in front of the black pawn;
+// a white slider and the white king anywhere. Mirrored for White.
+func c09StaleCageFamily(r *ev.Run, handle func(b *board.Board, p *refchess.Pos)) int64 {
+	var n atomic.Int64
+	type job struct{ cf, side int }
+	var jobs []job
+	for cf := 0; cf < 7; cf++ { // file of the black capturer (the h-file belongs to the cage)
+		for _, side := range []int{-1, 1} {
+			if cf+side < 0 || cf+side > 6 {
+				continue
+			}
+			jobs = append(jobs, job{cf, side})
+		}
+	}
+	ev.Parallel(len(jobs), func(wk, item int) {
+		if r.Expired() {
+			return
+		}
+		j := jobs[item]
+		var ld eng.Loader
+		var p refchess.Pos
+		p.Full = 1
+		p.Stm = refchess.Black
+		p.Sq[63] = -refchess.King  // h8
+		p.Sq[55] = -refchess.Pawn  // h7
+		p.Sq[47] = refchess.Pawn   // h6
+		p.Sq[52] = refchess.Knight // e7
+		capt := 24 + j.cf          // black pawn on rank 4
+		pushed := 24 + j.cf + j.side
+		p.Sq[capt] = -refchess.Pawn
+		p.Sq[pushed] = refchess.Pawn
+		p.Ep = int8(pushed - 8)
+		front := capt - 8
+		try := func() {
+			if !p.Valid() || p.InCheck(refchess.Black) {
+				return
+			}
+			n.Add(1)
+			q := p.Normalized()
+			handle(ld.Load(&q), &q)
+			m := q.Mirror()
+			handle(ld.Load(&m), &m)
+		}
+		for wk := 0; wk < 64; wk++ {
+			if p.Sq[wk] != 0 || wk == int(p.Ep) || wk == pushed-16 {
+				continue
+			}
+			p.Sq[wk] = refchess.King
+			for _, blocker := range []int8{0, refchess.Knight, refchess.Bishop} {
+				if blocker != 0 {
+					if p.Sq[front] != 0 {
+						continue
+					}
+					p.Sq[front] = blocker
+				}
+				for _, sl := range []int8{0, refchess.Rook, refchess.Bishop, refchess.Queen} {
+					if sl == 0 {
+						try()
+						continue
+					}
+					for s := 0; s < 64; s++ {
+						if p.Sq[s] != 0 || s == int(p.Ep) || s == pushed-16 {
+							continue
+						}
+						p.Sq[s] = sl
+						try()
+						p.Sq[s] = 0
+					}
+				}
+				if blocker != 0 {
+					p.Sq[front] = 0
+				}
+			}
+			p.Sq[wk] = 0
+		}
+	})
+	return n.Load() * 2
+}
+
+// c09CornerFamily: White king a1 checked by a rook/queen on the a-file; b2 holds an own man that may be pinned by a
+// bishop/queen on the long diagonal; b1 holds an own man or is covered by a black knight; one more own piece anywhere.
+func c09CornerFamily(r *ev.Run, handle func(b *board.Board, p *refchess.Pos)) int64 {
+	var n atomic.Int64
+	type job struct {
+		csq int
+		ck  int8
+	}
+	var jobs []job
+	for csq := 16; csq < 64; csq += 8 { // a3..a8
+		for _, ck := range []int8{-refchess.Rook, -refchess.Queen} {
+			jobs = append(jobs, job{csq, ck})
+		}
+	}
+	extraKinds := ev.Pick(r, []int8{refchess.Rook, refchess.Knight}, []int8{refchess.Rook, refchess.Knight, refchess.Bishop, refchess.Queen})
+	bkSquares := ev.Pick(r, []int{63, 62, 47, 39, 31, 23, 60, 5}, nil)
+	ev.Parallel(len(jobs), func(wk, item int) {
+		if r.Expired() {
+			return
+		}
+		j := jobs[item]
+		var ld eng.Loader
+		var p refchess.Pos
+		p.Ep = -1
+		p.Full = 1
+		p.Sq[0] = refchess.King
+		p.Sq[j.csq] = j.ck
+		try := func() {
+			if !p.Valid() || !p.InCheck(refchess.White) {
+				return
+			}
+			n.Add(1)
+			handle(ld.Load(&p), &p)
+			m := p.Mirror()
+			handle(ld.Load(&m), &m)
+		}
+		diag := []int{18, 27, 36, 45, 54, 63}
+		for _, b2 := range []int8{refchess.Bishop, refchess.Knight, refchess.Rook, refchess.Queen, refchess.Pawn} {
+			p.Sq[9] = b2
+			for _, b1 := range []int8{refchess.Bishop, refchess.Knight, refchess.Rook, -100} {
+				knightSq := -1
+				if b1 == -100 {
+					// b1 empty but covered by a black knight on d2
+					knightSq = 11
+					p.Sq[knightSq] = -refchess.Knight
+				} else {
+					p.Sq[1] = b1
+				}
+				for pi := -1; pi < len(diag); pi++ {
+					for _, pk := range []int8{-refchess.Bishop, -refchess.Queen} {
+						if pi < 0 && pk != -refchess.Bishop {
+							continue
+						}
+						if pi >= 0 {
+							if p.Sq[diag[pi]] != 0 {
+								continue
+							}
+							p.Sq[diag[pi]] = pk
+						}
+						bks := bkSquares
+						if bks == nil {
+							bks = make([]int, 64)
+							for i := range bks {
+								bks[i] = i
+							}
+						}
+						for _, bk := range bks {
+							if p.Sq[bk] != 0 {
+								continue
+							}
+							p.Sq[bk] = -refchess.King
+							try()
+							for _, x := range extraKinds {
+								for s := 0; s < 64; s++ {
+									if p.Sq[s] != 0 {
+										continue
+									}
+									p.Sq[s] = x
+									try()
+									p.Sq[s] = 0
+								}
+							}
+							p.Sq[bk] = 0
+						}
+						if pi >= 0 {
+							p.Sq[diag[pi]] = 0
+						}
+					}
+				}
+				if knightSq >= 0 {
+					p.Sq[knightSq] = 0
+				} else {
+					p.Sq[1] = 0
+				}
+			}
+			p.Sq[9] = 0
 		}
 	})
 	return n.Load() * 2
